@@ -1,4 +1,4 @@
-//go:build verif
+//go:build verif && (c09 || allprops)
 
 package main
 
@@ -31,26 +31,6 @@ func withSpareCapacity(dm *model.DecisionMaker) {
 	cr := make(model.Criteria, len(dm.Criteria), len(dm.Criteria)+4)
 	copy(cr, dm.Criteria)
 	dm.Criteria = cr
-}
-
-func altByID(as []model.AlternativeWithCriteria) map[string]model.Weights {
-	m := map[string]model.Weights{}
-	for _, a := range as {
-		m[a.Id] = a.Criteria
-	}
-	return m
-}
-
-func weightsEq(a, b map[string]float64) bool {
-	if len(a) != len(b) {
-		return false
-	}
-	for k, v := range a {
-		if w, ok := b[k]; !ok || w != v {
-			return false
-		}
-	}
-	return true
 }
 
 // reportFaithful compares what a fired bias reports with the state it handed on.
